@@ -44,16 +44,6 @@ def cli_cfg(maxfiles, nc, emit=True, bug="none"):
             % (maxfiles, nc, "TRUE" if emit else "FALSE", bug))
 
 
-def bad_indexes(res):
-    bad = {}
-    with open(res.out_path, errors="replace") as fh:
-        for line in fh:
-            m = re.match(r'<<"BAD", "(\w+)", (\d+)>>', line)
-            if m:
-                bad.setdefault(int(m.group(2)), set()).add(m.group(1))
-    return bad
-
-
 class Acc:
     def __init__(self):
         self.violations, self.drift, self.samples = [], [], []
@@ -67,7 +57,7 @@ class Acc:
         self.nontriv += r["distinct_nontrivial"]
         self.violations.extend(r["violations"])
         self.drift.extend(r["drift"])
-        self.samples.extend(r["samples"][:3])
+        self.samples.extend(r["samples"][:4])
         for k, v in r["counters"].items():
             self.counters[k] = self.counters.get(k, 0) + v
         return r
@@ -90,6 +80,25 @@ def selftest(ctx):
             failed.append(bug)
     if failed:
         raise NoVerdict("bug configurations without a TLC counterexample: %s" % failed)
+    # a record of the real code with one corrupted field must be rejected by the trace validation
+    drv = go_build(ctx, "drivers/txtarwrite")
+    cases = ctx.path("st_cases.ndjson")
+    require_tlc_ok(tlc(ctx, SPECDIR, "MC_TxtarWrite.tla", "MC_TxtarWrite_st.cfg", cfg_text=write_cfg(2, 1), emit_to=cases,
+                       workers=4, timeout=600, name="stgen"), "selftest generator")
+    trace = ctx.path("sttrace", "trace.ndjson")
+    run_driver(ctx, [drv, "-mode", "write-random", "-cases", cases, "-work", ctx.mkdir("work"), "-n", "100",
+                     "-trace", trace, "-out", ctx.path("st.json")])
+    recs = [json.loads(l) for l in open(trace)]
+    recs[6]["after"].append(dict(path=["w", "zz"], kind="file", data="n1"))      # a file next to the target's ancestors
+    with open(trace, "w") as fh:
+        for r in recs:
+            fh.write(json.dumps(r) + "\n")
+    res = tlc(ctx, SPECDIR, "Trace_TxtarWrite.tla", "Trace_TxtarWrite.cfg", files=[trace], workers=4, timeout=600, name="sttrace")
+    require_tlc_ok(res, "selftest trace validation")
+    bad = bad_traces(res)
+    log("selftest corrupted record 7: rejected by %s" % sorted(bad.get(7, [])))
+    if "RecContained" not in bad.get(7, set()) or any(i != 7 and (v - {"RecModel"}) for i, v in bad.items()):
+        raise NoVerdict("corrupted record not (or not only) rejected: %s" % bad)
     return 0
 
 
@@ -103,7 +112,7 @@ def check(ctx):
     xstride = 8 if quick else 40                                # txtar-x on every n-th Write case (if representable)
     n_wrand = 3000 if quick else 40000
     # (MaxFiles, NC, stride): measured 9,508 states quick; 21,172 / 181,540 thorough
-    cli_runs = [(2, 8, 2)] if quick else [(2, 12, 1), (3, 8, 12)]
+    cli_runs = [(2, 8, 3)] if quick else [(2, 12, 1), (3, 8, 6)]
     n_crand = 600 if quick else 8000
 
     t_last = [time.time()]
@@ -180,14 +189,11 @@ def check(ctx):
                      "-trace", wtrace, "-out", out])
     acc.absorb(out)
     res = tlc(ctx, SPECDIR, "Trace_TxtarWrite.tla", "Trace_TxtarWrite.cfg", files=[wtrace], workers=NCPU, timeout=2400,
-              extra=["-continue"], expect_violation=True, name="wtrace")
-    ctx.tlc_states += res.distinct
-    ctx.tlc_transitions += max(res.generated - 1, 0)
+              name="wtrace")
+    require_tlc_ok(res, "validation of the Write records (Trace_TxtarWrite)")
     if res.distinct != n_wrand:
-        raise NoVerdict("Trace_TxtarWrite visited %d of %d records\n%s" % (res.distinct, n_wrand, res.violation))
-    bad = bad_indexes(res)
-    if not bad and not res.ok:
-        raise NoVerdict("Trace_TxtarWrite failed without naming a record:\n%s" % res.violation)
+        raise NoVerdict("Trace_TxtarWrite visited %d of %d records" % (res.distinct, n_wrand))
+    bad = bad_traces(res)
     judged_w = {"RecNoPanic", "RecContained", "RecNoOverwrite", "RecMustError", "RecHolds"}
     if bad:
         recs = open(wtrace).read().splitlines()
@@ -230,14 +236,11 @@ def check(ctx):
                      "-trace", ctrace, "-out", out])
     acc.absorb(out)
     res = tlc(ctx, SPECDIR, "Trace_TxtarCli.tla", "Trace_TxtarCli.cfg", files=[ctrace, TXTAR_TLA], workers=NCPU,
-              timeout=2400, extra=["-continue"], expect_violation=True, name="ctrace")
-    ctx.tlc_states += res.distinct
-    ctx.tlc_transitions += max(res.generated - 1, 0)
+              timeout=2400, name="ctrace")
+    require_tlc_ok(res, "validation of the round-trip records (Trace_TxtarCli)")
     if res.distinct != n_crand:
-        raise NoVerdict("Trace_TxtarCli visited %d of %d records\n%s" % (res.distinct, n_crand, res.violation))
-    bad = bad_indexes(res)
-    if not bad and not res.ok:
-        raise NoVerdict("Trace_TxtarCli failed without naming a record:\n%s" % res.violation)
+        raise NoVerdict("Trace_TxtarCli visited %d of %d records" % (res.distinct, n_crand))
+    bad = bad_traces(res)
     judged_c = {"RecExit", "RecExtractModel", "RecReproduces"}
     if bad:
         recs = open(ctrace).read().splitlines()
@@ -272,7 +275,7 @@ def check(ctx):
               "nested / dot / marker file; random cases are not counted as distinct."
               % (write_runs, write_cases, xstride, acc.counters.get("txtar_x_runs", 0), n_wrand, cli_runs, cli_states,
                  cli_replayed, n_crand)),
-        samples=acc.samples[:10], exhaustive=all(st == 1 for _, _, st in cli_runs), write_cases=write_cases, cli_states=cli_states,
+        samples=acc.samples[:24], exhaustive=all(st == 1 for _, _, st in cli_runs), write_cases=write_cases, cli_states=cli_states,
         cli_round_trips=acc.counters.get("cli_round_trips", 0),
         traces_validated_against_impl=n_wrand + n_crand, counters=acc.counters, drift=acc.drift[:10],
         drift_total=max(len(acc.drift), acc.counters.get("drift_total", 0)),
@@ -291,8 +294,12 @@ REGISTRY = dict(
           "inside a sandbox snapshotted with plain os calls. TxtarCli.tla builds txtar-c (SaveDir) and txtar-x (Parse + Write) on "
           "top of the C03 format semantics; TLC checks the round-trip laws on every enumerated tree and the driver runs the two "
           "real binaries on each. Beyond the bounds, records of the real code on seeded random archives / trees are judged by "
-          "TLC (Trace_TxtarWrite, Trace_TxtarCli). quick: 55,380 Write cases + ~1,100 txtar-x runs + 3,000 records; 21,172 trees "
-          "(every 2nd run) + 600 records. thorough: names <= 5 segments and 3-entry archives, 181,540 trees of <= 3 files."),
+          "TLC (Trace_TxtarWrite, Trace_TxtarCli). Measured: quick = 7,765 Write cases (names <= 4 segments single entry, <= 3 "
+          "segments two entries) + ~950 txtar-x runs + 3,000 records; 9,508 trees of <= 2 files, every 3rd through the binaries "
+          "(~3,200 round trips) + 600 records, 45-90 s. thorough = 116,850 Write cases (names <= 5 segments, archives <= 3 "
+          "entries) + 40,000 records; 21,172 trees x 12 bodies all run, 181,540 trees of <= 3 files every 6th run (~51,000 round "
+          "trips) + 8,000 records, ~6 min. Bug_*.cfg (PrefixOnly, RawPrefix, Trunc, AbsAsRel, IncludeMarker, NoUnquoteLine) and "
+          "a corrupted record are the --selftest."),
     note="trusted: TLC, Txtar.tla / TxtarWrite.tla / TxtarCli.tla, the driver's os-level snapshot and comparison code, the "
          "real txtar.Parse/Unquote for reading 'unquote' comment lines (judged by C03/C14); Linux path rules only; symlinks not modelled",
     technique="TLA+ model + laws model-checked by TLC; one generated test per transition replayed into txtar.Write / txtar-x / "
